@@ -4,6 +4,7 @@ import (
 	"go/ast"
 	"go/token"
 	"go/types"
+	"sort"
 	"strings"
 )
 
@@ -14,22 +15,33 @@ import (
 // fields reached through X are killed when X.<mutex>.Unlock()/RUnlock() is called.
 
 type Facts struct {
-	m map[string]bool // atom -> truth
+	m    map[string]bool // atom -> truth
+	rel  map[string]relAtom // relational atoms ("a < b", "a == b") with their operand syntax
+	info *types.Info
+}
+
+// relAtom keeps the operands of a canonical relational atom.
+type relAtom struct {
+	Op   token.Token // token.LSS or token.EQL
+	X, Y ast.Expr
 }
 
 func (f Facts) clone() Facts {
-	n := Facts{m: make(map[string]bool, len(f.m)+2)}
+	n := Facts{m: make(map[string]bool, len(f.m)+2), rel: make(map[string]relAtom, len(f.rel)+2), info: f.info}
 	for k, v := range f.m {
 		n.m[k] = v
+	}
+	for k, v := range f.rel {
+		n.rel[k] = v
 	}
 	return n
 }
 
 // canonAtom returns the canonical atom for comparison e and whether truth must be flipped.
-func canonAtom(e ast.Expr) (atom string, flip bool) {
+func canonAtom(info *types.Info, e ast.Expr) (atom string, flip bool) {
 	e = ast.Unparen(e)
 	if b, ok := e.(*ast.BinaryExpr); ok {
-		x, y := exprStr(b.X), exprStr(b.Y)
+		x, y := normStr(info, b.X), normStr(info, b.Y)
 		switch b.Op {
 		case token.EQL:
 			if y < x && y != "nil" || x == "nil" {
@@ -51,7 +63,81 @@ func canonAtom(e ast.Expr) (atom string, flip bool) {
 			return y + " < " + x, true
 		}
 	}
-	return exprStr(e), false
+	return normStr(info, e), false
+}
+
+// normStr renders e with value-preserving integer conversions removed (int(x) where x is a
+// narrower or equally wide integer of compatible signedness), so that `len(b) < int(size)` and
+// `b[:size]` talk about the same quantity.
+func normStr(info *types.Info, e ast.Expr) string {
+	if info == nil {
+		return exprStr(e)
+	}
+	return exprStr(stripWidening(info, e))
+}
+
+func intInfo(t types.Type) (bits int, unsigned, ok bool) {
+	b, isB := t.Underlying().(*types.Basic)
+	if !isB || b.Info()&types.IsInteger == 0 {
+		return 0, false, false
+	}
+	switch b.Kind() {
+	case types.Int8:
+		return 8, false, true
+	case types.Int16:
+		return 16, false, true
+	case types.Int32:
+		return 32, false, true
+	case types.Int64:
+		return 64, false, true
+	case types.Int:
+		return 63, false, true // at least 32; treated as wider than int32, not wider than int64
+	case types.Uint8:
+		return 8, true, true
+	case types.Uint16:
+		return 16, true, true
+	case types.Uint32:
+		return 32, true, true
+	case types.Uint64, types.Uintptr:
+		return 64, true, true
+	case types.Uint:
+		return 63, true, true
+	case types.UntypedInt:
+		return 64, false, true
+	}
+	return 0, false, false
+}
+
+// stripWidening returns e without outer value-preserving conversions, recursively in binary expressions.
+func stripWidening(info *types.Info, e ast.Expr) ast.Expr {
+	e = ast.Unparen(e)
+	switch x := e.(type) {
+	case *ast.CallExpr:
+		if len(x.Args) == 1 {
+			if tv, ok := info.Types[x.Fun]; ok && tv.IsType() {
+				tb, tu, ok1 := intInfo(tv.Type)
+				st := info.TypeOf(x.Args[0])
+				if st != nil && ok1 {
+					sb, su, ok2 := intInfo(st)
+					if ok2 {
+						// value preserving: same signedness and target at least as wide; or unsigned -> strictly wider signed
+						wideInt := func(b int) int {
+							if b == 63 {
+								return 32 // int/uint may be 32-bit
+							}
+							return b
+						}
+						if su == tu && wideInt(tb) >= sb && !(sb == 63 && tb != 63 && tb < 64) || su && !tu && wideInt(tb) > sb {
+							return stripWidening(info, x.Args[0])
+						}
+					}
+				}
+			}
+		}
+	case *ast.BinaryExpr:
+		return &ast.BinaryExpr{X: stripWidening(info, x.X), Op: x.Op, Y: stripWidening(info, x.Y), OpPos: x.OpPos}
+	}
+	return e
 }
 
 // assume adds the knowledge "e evaluates to val".
@@ -79,8 +165,39 @@ func (f *Facts) assume(e ast.Expr, val bool) {
 			return
 		}
 	}
-	atom, flip := canonAtom(e)
+	atom, flip := canonAtom(f.info, e)
 	f.m[atom] = val != flip
+	if ra, ok := canonRel(f.info, e); ok {
+		f.rel[atom] = ra
+	}
+}
+
+// setRel records a synthetic relational fact x op y = val.
+func (f *Facts) setRel(op token.Token, x, y ast.Expr, val bool) {
+	atom := normStr(f.info, x) + " " + op.String() + " " + normStr(f.info, y)
+	f.m[atom] = val
+	f.rel[atom] = relAtom{Op: op, X: x, Y: y}
+}
+
+// canonRel mirrors canonAtom for the operand syntax.
+func canonRel(info *types.Info, e ast.Expr) (relAtom, bool) {
+	b, ok := ast.Unparen(e).(*ast.BinaryExpr)
+	if !ok {
+		return relAtom{}, false
+	}
+	x, y := normStr(info, b.X), normStr(info, b.Y)
+	switch b.Op {
+	case token.EQL, token.NEQ:
+		if y < x && y != "nil" || x == "nil" {
+			return relAtom{token.EQL, b.Y, b.X}, true
+		}
+		return relAtom{token.EQL, b.X, b.Y}, true
+	case token.LSS, token.GEQ:
+		return relAtom{token.LSS, b.X, b.Y}, true
+	case token.GTR, token.LEQ:
+		return relAtom{token.LSS, b.Y, b.X}, true
+	}
+	return relAtom{}, false
 }
 
 // Known reports the truth of expression string (Go syntax, e.g. "c.closed", "n < 0") if known.
@@ -114,7 +231,7 @@ func (f Facts) Known(e ast.Expr) (bool, bool) {
 			return false, false
 		}
 	}
-	atom, flip := canonAtom(e)
+	atom, flip := canonAtom(f.info, e)
 	v, ok := f.m[atom]
 	return v != flip, ok
 }
@@ -152,6 +269,7 @@ func (f *Facts) kill(lv string) {
 	for k := range f.m {
 		if mentions(k, lv) {
 			delete(f.m, k)
+			delete(f.rel, k)
 		}
 	}
 }
@@ -180,18 +298,22 @@ func isMutexMethod(name string) (lockKind string, ok bool) {
 
 // GuardFacts solves the guard-fact analysis for g.
 func (g *Graph) GuardFacts() *Solution[Facts] {
+	if g.factsCache != nil && !g.P.postcondBusy {
+		return g.factsCache
+	}
+	sol := g.guardFacts()
+	if !g.P.postcondBusy {
+		g.factsCache = sol
+	}
+	return sol
+}
+
+func (g *Graph) guardFacts() *Solution[Facts] {
 	info := g.Info
 	l := Lattice[Facts]{
-		Init: Facts{m: map[string]bool{}},
-		Join: func(a, b Facts) Facts {
-			n := Facts{m: map[string]bool{}}
-			for k, v := range a.m {
-				if bv, ok := b.m[k]; ok && bv == v {
-					n.m[k] = v
-				}
-			}
-			return n
-		},
+		Init: Facts{m: map[string]bool{}, rel: map[string]relAtom{}, info: info},
+		Join:  func(a, b Facts) Facts { return joinFacts(g, a, b, false) },
+		Widen: func(a, b Facts) Facts { return joinFacts(g, a, b, true) },
 		Eq: func(a, b Facts) bool {
 			if len(a.m) != len(b.m) {
 				return false
@@ -208,11 +330,18 @@ func (g *Graph) GuardFacts() *Solution[Facts] {
 			case StCond:
 				n := s.clone()
 				n.assume(st.Node.(ast.Expr), st.Val)
+				if call, trueErr := g.P.errCheckOf(info, st.Node.(ast.Expr)); call != nil && st.Val != trueErr {
+					g.P.applyLenPostcond(info, &n, call)
+				}
 				return n
 			case StCase:
 				n := s.clone()
-				atom, flip := canonAtom(&ast.BinaryExpr{X: st.Tag, Op: token.EQL, Y: st.Node.(ast.Expr)})
+				be := &ast.BinaryExpr{X: st.Tag, Op: token.EQL, Y: st.Node.(ast.Expr)}
+				atom, flip := canonAtom(info, be)
 				n.m[atom] = st.Val != flip
+				if ra, ok := canonRel(info, be); ok {
+					n.rel[atom] = ra
+				}
 				return n
 			case StTypeCase:
 				cc := st.Clause.(*ast.CaseClause)
@@ -225,7 +354,33 @@ func (g *Graph) GuardFacts() *Solution[Facts] {
 					}
 				}
 				return n
+			case StRange:
+				rs, ok := st.Node.(*ast.RangeStmt)
+				if !ok {
+					return s
+				}
+				n := s.clone()
+				for _, l := range []ast.Expr{rs.Key, rs.Value} {
+					if id, ok := l.(*ast.Ident); ok && id.Name != "_" {
+						n.kill(id.Name)
+					}
+				}
+				if st.Val {
+					if id, ok := rs.Key.(*ast.Ident); ok && id.Name != "_" {
+						if t := info.TypeOf(rs.X); t != nil {
+							switch t.Underlying().(type) {
+							case *types.Slice, *types.Array, *types.Basic:
+								n.setRel(token.LSS, id, &ast.CallExpr{Fun: ast.NewIdent("len"), Args: []ast.Expr{rs.X}}, true)
+								n.setRel(token.LSS, id, &ast.BasicLit{Kind: token.INT, Value: "0"}, false)
+							}
+						}
+					}
+				}
+				return n
 			case StNode:
+				if _, isRange := st.Node.(*ast.RangeStmt); isRange {
+					return s
+				}
 				lhs := assignedLHS(st.Node)
 				var unlockRoots []string
 				for _, c := range callsIn(st.Node) {
@@ -258,12 +413,78 @@ func (g *Graph) GuardFacts() *Solution[Facts] {
 							// only kill facts that mention a field of the unlocked object
 							if mentionsFieldOf(k, r) {
 								delete(n.m, k)
+								delete(n.rel, k)
 							}
 						}
 					}
 				}
-				// definitions like `v := expr` that make v an alias: record nothing
-				_ = types.Typ
+				// X = make([]T, n)  =>  len(X) == n ; X = T{F: make([]E, n)} => len(X.F) == n ;
+				// x = <const | len(Y) | ident>  =>  x == rhs (scalar copies used by later bounds reasoning)
+				if as, ok := st.Node.(*ast.AssignStmt); ok && len(as.Lhs) == len(as.Rhs) && (as.Tok == token.ASSIGN || as.Tok == token.DEFINE) {
+					for i, rhs := range as.Rhs {
+						lhs := as.Lhs[i]
+						if id, isId := lhs.(*ast.Ident); isId && id.Name == "_" {
+							continue
+						}
+						lhsStr := exprStr(lhs)
+						rhs = ast.Unparen(rhs)
+						addMake := func(target ast.Expr, c *ast.CallExpr) {
+							if calleeName(info, c) == "builtin.make" && len(c.Args) >= 2 && !mentions(normStr(info, c.Args[1]), lhsStr) {
+								if _, isSl := info.TypeOf(c).Underlying().(*types.Slice); isSl {
+									n.setRel(token.EQL, &ast.CallExpr{Fun: ast.NewIdent("len"), Args: []ast.Expr{target}}, c.Args[1], true)
+								}
+							}
+						}
+						switch x := rhs.(type) {
+						case *ast.CallExpr:
+							addMake(lhs, x)
+							if exprStr(x.Fun) == "len" && len(x.Args) == 1 && !mentions(normStr(info, x), lhsStr) {
+								n.setRel(token.EQL, lhs, x, true)
+							}
+						case *ast.UnaryExpr, *ast.CompositeLit:
+							var cl *ast.CompositeLit
+							if u, ok := x.(*ast.UnaryExpr); ok && u.Op == token.AND {
+								cl, _ = ast.Unparen(u.X).(*ast.CompositeLit)
+							} else if c, ok := x.(*ast.CompositeLit); ok {
+								cl = c
+							}
+							if cl != nil {
+								for _, el := range cl.Elts {
+									kv, ok := el.(*ast.KeyValueExpr)
+									if !ok {
+										continue
+									}
+									key, ok := kv.Key.(*ast.Ident)
+									if !ok {
+										continue
+									}
+									target := &ast.SelectorExpr{X: lhs, Sel: ast.NewIdent(key.Name)}
+									switch v := ast.Unparen(kv.Value).(type) {
+									case *ast.CallExpr:
+										addMake(target, v)
+									case *ast.Ident, *ast.SelectorExpr:
+										// X.F = Y  => len(X.F) == len(Y) for slices
+										if t := info.TypeOf(v); t != nil {
+											if _, isSl := t.Underlying().(*types.Slice); isSl && !mentions(normStr(info, v), lhsStr) {
+												n.setRel(token.EQL, &ast.CallExpr{Fun: ast.NewIdent("len"), Args: []ast.Expr{target}}, &ast.CallExpr{Fun: ast.NewIdent("len"), Args: []ast.Expr{v}}, true)
+											}
+										}
+									}
+								}
+							}
+						default:
+							if t := info.TypeOf(lhs); t != nil {
+								if _, _, isInt := intInfo(t); isInt {
+									if _, isC := constInt(info, rhs); isC {
+										n.setRel(token.EQL, lhs, rhs, true)
+									} else if rid, ok := rhs.(*ast.Ident); ok && rid.Name != lhsStr {
+										n.setRel(token.EQL, lhs, rhs, true)
+									}
+								}
+							}
+						}
+					}
+				}
 				return n
 			}
 			return s
@@ -352,3 +573,110 @@ func (g *Graph) Lockset() *Solution[strset] {
 
 // heldAny reports whether mutex expression mu is held in either mode.
 func heldAny(s strset, mu string) bool { return s[mu] || s["R:"+mu] }
+
+// joinFacts: atom intersection plus the relational (difference-bound) join: a bound u <= v + w that holds on
+// both sides (with possibly different w) survives with the weaker w. With widen=true only bounds that are
+// equal on both sides survive, which guarantees termination on loops.
+func joinFacts(g *Graph, a, b Facts, widen bool) Facts {
+	n := Facts{m: map[string]bool{}, rel: map[string]relAtom{}, info: a.info}
+	same := len(a.m) == len(b.m)
+	for k, v := range a.m {
+		if bv, ok := b.m[k]; ok && bv == v {
+			n.m[k] = v
+			if ra, ok := a.rel[k]; ok {
+				n.rel[k] = ra
+			}
+		} else {
+			same = false
+		}
+	}
+	if same || len(a.rel) == 0 || len(b.rel) == 0 {
+		return n
+	}
+	da, db := newDBM(g, a, nil), newDBM(g, b, nil)
+	// candidate terms: those known to both sides
+	terms := map[string]ast.Expr{}
+	collect := func(f Facts, d *dbm, into map[string]ast.Expr) {
+		for _, ra := range f.rel {
+			for _, e := range []ast.Expr{ra.X, ra.Y} {
+				if base, _, ok := d.termExpr(e); ok && base != nil {
+					into[normStr(f.info, base)] = base
+				}
+			}
+		}
+	}
+	ta, tb := map[string]ast.Expr{}, map[string]ast.Expr{}
+	collect(a, da, ta)
+	collect(b, db, tb)
+	for k, e := range ta {
+		if _, ok := tb[k]; ok {
+			terms[k] = e
+		}
+	}
+	if len(terms) == 0 || len(terms) > 10 {
+		return n
+	}
+	dn := newDBM(g, n, nil)
+	names := make([]string, 0, len(terms)+1)
+	for k := range terms {
+		names = append(names, k)
+	}
+	sort.Strings(names)
+	names = append(names, zeroNode)
+	lit := func(k int) ast.Expr {
+		if k < 0 {
+			return &ast.UnaryExpr{Op: token.SUB, X: &ast.BasicLit{Kind: token.INT, Value: fmtInt(-k)}}
+		}
+		return &ast.BasicLit{Kind: token.INT, Value: fmtInt(k)}
+	}
+	exprOf := func(name string) ast.Expr {
+		if name == zeroNode {
+			return nil
+		}
+		return terms[name]
+	}
+	for _, u := range names {
+		for _, v := range names {
+			if u == v {
+				continue
+			}
+			wa, oka := da.dist(u, v)
+			wb, okb := db.dist(u, v)
+			if !oka || !okb {
+				continue
+			}
+			w := wa
+			if wb > w {
+				w = wb
+			}
+			if widen && wa != wb {
+				continue
+			}
+			if w > 1<<20 || w < -(1<<20) {
+				continue
+			}
+			if wn, ok := dn.dist(u, v); ok && wn <= w {
+				continue // already implied
+			}
+			// u <= v + w   encoded as   !(v + w < u)
+			ue, ve := exprOf(u), exprOf(v)
+			var lhs, rhs ast.Expr
+			switch {
+			case ue == nil: // 0 <= v + w  ->  !(v < -w)
+				lhs, rhs = ve, lit(-w)
+				n.setRel(token.LSS, lhs, rhs, false)
+			case ve == nil: // u <= w  -> !(w < u)
+				n.setRel(token.LSS, lit(w), ue, false)
+			default:
+				if w == 0 {
+					n.setRel(token.LSS, ve, ue, false)
+				} else if w > 0 {
+					n.setRel(token.LSS, &ast.BinaryExpr{X: ve, Op: token.ADD, Y: lit(w)}, ue, false)
+				} else {
+					n.setRel(token.LSS, &ast.BinaryExpr{X: ve, Op: token.SUB, Y: lit(-w)}, ue, false)
+				}
+			}
+		}
+	}
+	return n
+}
